@@ -2006,33 +2006,43 @@ class C16(Prop):
         # sent is Coq's chain_path (confirmed by the driver), the expected value comes from following the keys
         for i in range(n // 6):
             depth = r.randint(2, 4)
-            keys = [gen_key(r) for _ in range(depth)]
+            # a step is a key (object level) or an index (array level)
+            keys = [(gen_key(r) if r.random() < 0.7 else r.randint(0, 11)) for _ in range(depth)]
             present = r.random() < 0.8
             miss_at = r.randrange(depth)
             inner = ('n', 1.0)
             for lvl in range(depth - 1, -1, -1):
                 k = keys[lvl]
-                sibs = [(sx.encode('utf-8'), ('n', float(j + 2))) for j, sx in enumerate(near_misses(r, k))]
-                members = sibs + ([(k.encode('utf-8'), inner)] if (present or lvl != miss_at) else [(b'zz9', inner)])
-                r.shuffle(members)
-                inner = ('o', members)
-            text, spec, last = '$', [], ''
+                hit = present or lvl != miss_at
+                if isinstance(k, int):
+                    ln = k + 1 + r.randint(0, 2) if hit else r.randint(0, k)
+                    inner = ('a', [inner if j == k else ('n', float(j + 2)) for j in range(ln)])
+                else:
+                    sibs = [(sx.encode('utf-8'), ('n', float(j + 2))) for j, sx in enumerate(near_misses(r, k))]
+                    members = sibs + ([(k.encode('utf-8'), inner)] if hit else [(b'zz9', inner)])
+                    r.shuffle(members)
+                    inner = ('o', members)
+            text, spec = '$', []
             for k in keys:
+                if isinstance(k, int):
+                    digits = ('0' * r.choice([0, 0, 0, 1, 2])) + str(k)
+                    text += '[' + digits + ']'
+                    spec.append((1, [ord(ch) for ch in digits]))
+                    continue
                 kb = k.encode('utf-8')
                 dot = gens.esc_dot(kb)
                 style = r.choice("'\"." if dot is not None else "'\"")
                 if style == '.':
-                    last = '.' + dot.decode('utf-8')
+                    text += '.' + dot.decode('utf-8')
                     spec.append((0, [ord(ch) for ch in k]))
                 else:
                     body = ''.join('\\' + ch if ch in (style, '\\') else ('\\u%04x' % ord(ch) if ord(ch) < 0x20 else ch) for ch in k)
-                    last = '[' + style + body + style + ']'
+                    text += '[' + style + body + style + ']'
                     spec.append((ord(style), [ord(ch) for ch in k]))
-                text += last
             cid = 'c%d' % i
             c = Case(cid, text.encode('utf-8'), [inner])
             c.keyc = spec
-            c.meta = {'key': keys, 'pos': 'coq-chain-path', 'escaped': True, 'keyq': True}
+            c.meta = {'key': [str(k) for k in keys], 'pos': 'coq-chain-path', 'escaped': True, 'keyq': True}
             want[cid] = 'ok:[n(1,0)]' if present else '*err'
             cases.append(c)
         # two members addressed from the root on both sides of a comparison: distinct keys must stay distinct
